@@ -208,6 +208,17 @@ def seq_from_items(run, items, ty):
         first = items[0]
         if isinstance(first, VTuple):
             raise err("list of tuples needs a declared type")
+        # an Optional element that cannot be None on this path is an element of the inner type
+        def _narrow(it):
+            if isinstance(it, Val) and isinstance(it.ty, TOpt) and not run.spec:
+                try:
+                    if not run.feasible(it.ty.is_none(it.t)):
+                        return Val(it.ty.inner, it.ty.get(it.t))
+                except z3.Z3Exception:
+                    pass
+            return it
+        items = [_narrow(it) for it in items]
+        first = items[0]
         ety = first.ty
         for it in items[1:]:
             if it.ty != ety:
